@@ -10,7 +10,7 @@ from vf.world import CELLMAP, plant, sut, make_sketch
 RULE = (
     "Hypothesis rule-based machine over 2 count-min sketches of one type (linear / log16 / log8; width from {1,2,3,4,8,16}, depth 1..4; log "
     "configurations max_count in {300,1000,5000,70000,10^6,2^32-1} x num_reserved in {0,1,3,15,1023}); states are produced by adds, "
-    "list/dict/ngram updates and merges; every add(k,v) step (v up to 2^40 for linear, <= 2000 for log; log draws planted by the harness from "
+    "list/dict/ngram updates, merges and (linear) runs of 22-32 doubling merges that push n_added beyond 2^53; every add(k,v) step (v up to 2^40 for linear, <= 2000 for log; log draws planted by the harness from "
     "arbitrary floats in [0,1) incl. 0, 2^-1074, 1-2^-53) is observed with before/after snapshots of the table, n_added() and query(u) for every "
     "key u of the universe. Oracle: linear query(k)' == min(query(k)+v, 2^32-1); log: smallest counter c <= c' <= min(c+v, umax), and c'==c+v, "
     "query(k)'==query(k)+v whenever c+v <= num_reserved+1; no estimate decreases; query(u)' <= max(query(u), query(k)') for u != k; at most one "
@@ -121,7 +121,7 @@ class AddChecker:
 
 
 def _values(kind_hint=None):
-    return st.one_of(st.sampled_from([0, 1, 1, 2, 3, 5, 16, 17, 100]), st.integers(0, 40), st.sampled_from([255, 256, 1000, 2000]))
+    return st.one_of(st.sampled_from([0, 1, 1, 2, 3, 5, 16, 17, 100]), st.integers(0, 40), st.sampled_from([255, 256, 257, 1000, 2000, 65535, 65536, 70000]))
 
 
 class _Values:
@@ -139,9 +139,21 @@ def _shard(arg):
         if self.world.kind == "linear":
             self.do({"op": "add", "i": i % self.N, "k": self.key(ki), "v": v})
 
+    @rule(i=machines.SK, ki=machines.IDX, t=st.sampled_from([11, 12, 16]))
+    def pump_n_added(self, i, ki, t):
+        """reach n_added >= 2^53 the legitimate way: one big add, then ~2t doubling merges between the two sketches"""
+        if self.world.kind != "linear":
+            return
+        i = i % self.N
+        j = (i + 1) % self.N
+        self.do({"op": "add", "i": i, "k": self.key(ki), "v": CEIL})
+        for _ in range(t):
+            self.do({"op": "merge", "i": i, "j": j})
+            self.do({"op": "merge", "i": j, "j": i})
+
     M = machines.make_machine(
         "C05Machine", AddChecker, rec, holder, CFG=ANY_CMS_CFG, N=2, VALUES=_values(), DRAWS=DRAWS, SAVELOAD=False, MAXKEY=24,
-        add_big_linear=add_big_linear,
+        add_big_linear=add_big_linear, pump_n_added=pump_n_added,
     )
     common.run_machine(M, common.derive_seed(seed, "C05", shard), n_examples, steps, holder, rec)
     return rec
